@@ -398,6 +398,11 @@ def check_history(c, rec):
                     fail(f"terminal-size-memoized value {v} is for a different terminal size than {cur}", {"kind": "ts_stale"})
                 if ts_last == cur and counts["ts"] != before:
                     fail("terminal_size_cached body re-ran although the terminal size did not change", {"kind": "ts_rerun"})
+                if ts_last is not None and ts_last != cur and counts["ts"] == before:
+                    # also when the terminal is back at a size seen earlier: whatever else changed with the resize
+                    # (pixel size, ...) must be noticed, so the value of the earlier visit may not be served
+                    fail(f"terminal_size_cached did not run its body after the terminal size changed {ts_last} -> {cur} "
+                         f"(served the value memoized at an earlier visit of this size)", {"kind": "ts_not_rerun"})
                 if counts["ts"] - before > 1:
                     fail("terminal_size_cached body ran more than once for one call", {"kind": "ts_rerun"})
                 ts_last = cur
